@@ -25,9 +25,6 @@ def run(ctx):
         "containing a newline or ending in CR and lines over 64 KiB are outside the domain",
         "the text of error / usage / version messages is not compared; observed are: option variables, remaining "
         "arguments, exit status (1 = fatal or help, 0 = version), that the exit went through atexit.Exit",
-        "an option named U+FFFD (or an invalid rune) that takes a value, met by an invalid UTF-8 byte in short-option "
-        "position, makes Parse panic with a slice-bounds error (utf8.RuneLen(U+FFFD)=3 > bytes left): excluded from "
-        "the generator; the model says fatal there",
     ]
     ctx.assumptions += ["response-file arguments contain no newline, do not end in CR, lines < 64 KiB"]
     ctx.extra["not_claimed_observations"] = [
@@ -36,8 +33,6 @@ def run(ctx):
         "construction",
         "a response-file reference in value position is taken literally "
         "(Props.C10.observation_reference_in_value_position)",
-        "an option named U+FFFD that takes a value + an invalid UTF-8 byte in short-option position: Parse panics "
-        "(slice bounds) instead of exiting; not generated",
     ]
     ctx.lean(props=["Props.C10"], drivers=["drv_c10"])
     ctx.harness("./cmd/c10")
